@@ -9,6 +9,14 @@ CLAIMED = {
   text="Deductive proof, for all 2^32 inputs, that CompactToBig returns sign*mantissa*256^(exp-3) (truncating below 3), that calcWork/CalculateWork return floor(2^256/(target+1)) or 0 for non-positive targets, that work is non-increasing in the target (lemma) and that FastLog2Floor(n) = floor(log2 n) for n>=1 (loop unrolled 5 times with unwinding assertion: complete). Proof level is right because the property is a pure function over a finite but untestable domain.",
   note="Trusted: go/ssa as semantics of the source, SMT solvers, govc; math/big operations modelled as mathematical integer operations; pow2 and bit-vector->Int bridges uninterpreted (proof holds for every interpretation).",
   design="4 C19"),
+ "C02": dict(
+  text="Deductive proof of the Go side of merkle-root verification for all inputs: three-way verdict of ToMerkleRootConfirmation against the statement's mathematical window (tip < height <= tip+excess, 64-bit widened), one verdict per item in request order (ConvertToMerkleRootsConfirmations, loop invariant), response mapping and overall verdict = worst individual one (mapToMerkleRootsConfirmationsResponses, loop invariants incl. existential witness), convertState severity order.",
+  note="Not covered by proof: the SQL lookups sqlVerifyHash / sqlTipOfChainHeight (engine behaviour) and therefore the clause 'verdicts track the chain' below the repository; JSON encoding. Trusted: go/ssa, solvers, govc.",
+  design="4 C02"),
+ "C12": dict(
+  text="Deductive proof over ghost tables WH (webhooks) and HTTP (per-URL effect log): Webhook.Notify sends exactly one POST with exactly {TokenHeader: Token, Content-Type: json}; updateWebhookAfterNotification is the counter/threshold automaton; WebhooksService.Notify (loop invariant over the stored set, Skolem index WHIDX) delivers once to every stored active webhook with M = configured max_tries and leaves inactive/unknown rows untouched; CreateWebhook/refreshWebhook/DeleteWebhook/GetWebhookByURL against the registration rules; L1 WebhooksRepository methods and dto converters proved against the storage-port contracts (behavioural subtyping).",
+  note="Assumed (trusted L0): the four webhook SQL statements in database/sql (contracts over WH); net/http delivery; time.Now, fmt.Sprint, io.ReadAll unconstrained; storage calls succeed under ghost nofault. WebhooksRepository.GetAllWebhooks (loop) is assumed via the port contract, not yet proved. Restart persistence rests on SQLite durability.",
+  design="4 C12"),
 }
 
 NOT_APPLICABLE = {
